@@ -10,6 +10,7 @@ pub mod lab_mem;
 pub mod lab_sock;
 pub mod props;
 pub mod reference;
+pub mod stall;
 
 #[global_allocator]
 static GLOBAL: alloc_guard::Guard = alloc_guard::Guard;
